@@ -9,6 +9,7 @@ import bisect
 import gc
 import mmap
 import os
+import random
 import sys
 import threading
 import time
@@ -512,27 +513,38 @@ def gc_history(rec, rng, ops):
     mon = Monitor(heap, rec, attrs)
     M = sys.monitoring
     TOOL = 3
-    code = bheap.Heap.malloc.__code__
+    # every function that runs with the heap's lock held
+    codes = [getattr(bheap.Heap, n).__code__
+             for n in ('malloc', 'free', '_malloc', '_free', '_free_pending_blocks')
+             if hasattr(getattr(bheap.Heap, n, None), '__code__')]
     fired = [0]
     busy = [False]
+    garbage = [0]
+    where = {}
+    rng2 = random.Random(rng.random())
 
     def on_line(c, line):
-        if busy[0]:
+        if busy[0] or not garbage[0] or rng2.random() > 0.3:
             return
         fr = sys._getframe(1)
         h = fr.f_locals.get('self')
         if h is heap and h._lock.locked():
             busy[0] = True
             try:
+                garbage[0] = 0
                 n = gc.collect()
                 if n:
                     fired[0] += 1
+                    where[c.co_name] = where.get(c.co_name, 0) + 1
             finally:
                 busy[0] = False
     gc.disable()
     M.use_tool_id(TOOL, 'vmon-c14')
     M.register_callback(TOOL, M.events.LINE, on_line)
-    M.set_local_events(TOOL, code, M.events.LINE)
+    def arm(on):
+        for c in codes:
+            M.set_local_events(TOOL, c, M.events.LINE if on else 0)
+    arm(True)
     held = []
     try:
         for step in range(ops):
@@ -543,6 +555,7 @@ def gc_history(rec, rng, ops):
                 b = heap.malloc(size)
                 if mon.on_malloc(size, b) is not None:
                     Owner(heap, mon, b)
+                    garbage[0] += 1
             elif r < 0.8 or not held:
                 size = pick_size(rng, 'mixed')
                 b = heap.malloc(size)
@@ -553,15 +566,15 @@ def gc_history(rec, rng, ops):
                 mon.before_free(b)
                 heap.free(b)
             if step % 25 == 0:
-                M.set_local_events(TOOL, code, 0)
+                arm(False)
                 mon.walk(quiescent=False)
-                M.set_local_events(TOOL, code, M.events.LINE)
+                arm(True)
     except Exception as exc:
         import traceback
         rec.violation('heap_operation_raised', attrs, exc=repr(exc),
                       tb=traceback.format_exc()[-1500:])
     finally:
-        M.set_local_events(TOOL, code, 0)
+        arm(False)
         M.register_callback(TOOL, M.events.LINE, None)
         M.free_tool_id(TOOL)
         gc.enable()
@@ -589,6 +602,8 @@ def gc_history(rec, rng, ops):
         rec.violation('heap_operation_raised', attrs, exc=repr(exc),
                       tb=traceback.format_exc()[-1500:])
     rec.count('gc_inside_malloc', fired[0])
+    for name, n in where.items():
+        rec.count('gc_inside:' + name, n)
     finish(rec, mon, 'gc', hs, 'gc', 'mixed')
 
 
